@@ -429,23 +429,25 @@ theorem shapeValue_sound (sem : Sem V) (L : OpLaws sem) (σ : String → Int) (s
         -- the constant `c` is the constant of `t`, of dtype INT64
         unfold numpyValue at hc
         simp only [] at hc
-        cases hct : st.constOf t with
-        | none => simp [hct] at hc
-        | some c' =>
-          simp only [hct] at hc
-          split at hc
-          · simp at hc
-          · rename_i hdt
+        split at hc
+        · simp at hc
+        · cases hct : st.constOf t with
+          | none => simp [hct] at hc
+          | some c' =>
+            simp only [hct] at hc
             split at hc
             · simp at hc
-            · simp only [Option.some.injEq] at hc
-              subst hc
-              have hv := hI.const t c' hct
-              rw [hvt] at hv
-              simp only [Option.some.injEq] at hv
-              subst hv
-              have hdt' : c'.dtype = DT_INT64 := by simpa using hdt
-              exact L.tensor_ints c' l hdt' (by simpa using hlen) hints
+            · rename_i hdt
+              split at hc
+              · simp at hc
+              · simp only [Option.some.injEq] at hc
+                subst hc
+                have hv := hI.const t c' hct
+                rw [hvt] at hv
+                simp only [Option.some.injEq] at hv
+                subst hv
+                have hdt' : c'.dtype = DT_INT64 := by simpa using hdt
+                exact L.tensor_ints c' l hdt' (by simpa using hlen) hints
     · simp at h
   · split at h
     · rename_i s hs
